@@ -154,6 +154,21 @@ def translator_variant():
     return 'unknown'
 
 
+def key_shape():
+    """the translator cache key and the lookup comparison, read from the source (tie for Model/C22Key.v)"""
+    import textwrap
+    src = textwrap.dedent(inspect.getsource(core.Query.__init__))
+    comps = None
+    for node in ast.walk(ast.parse(src)):
+        if isinstance(node, ast.Assign) and isinstance(node.targets[0], ast.Attribute) and node.targets[0].attr == '_key' \
+                and isinstance(node.value, ast.Call) and getattr(node.value.func, 'id', '') == 'HashableDict':
+            comps = [kw.arg for kw in node.value.keywords]
+    gsrc = inspect.getsource(core.Query._get_translator)
+    return {'components': comps,
+            'looks_up_by_key': '_translator_cache.get(query_key)' in gsrc,
+            'compares_fixed_values': 'for key, val in translator.fixed_param_values.items():' in gsrc and 'if val != new_vars[key]:' in gsrc}
+
+
 def run_translator(db, P, case):
     def one(x):
         with orm.db_session:
@@ -200,9 +215,44 @@ CACHES = {
 }
 
 
+def _extractors_call(src):
+    from pony.orm import asttranslation
+    tree = ast.parse('(%s)' % src).body[0].value            # a fresh GeneratorExp each time (the cache stores the first one)
+    t, ex = asttranslation.create_extractors(src, tree, {}, {}, core.special_functions, core.const_functions)
+    return [src, sorted(ex)]            # the key (source text) is part of the canonical value: equal class <=> equal key
+
+def _lambda_args_call(i):
+    from pony.utils import utils
+    return [i, list(utils.get_lambda_args(LAMBDAS[i]))]      # key = id of the code object = the pool index
+
+QUERIES = ['p for p in P', 'p.name for p in P', 'p for p in P', 'p for p in P if p.id > 1']
+_DBP = []
+
+def _constructed_sql_call(i):
+    db, P = _DBP
+    with orm.db_session:
+        return orm.select(QUERIES[i], {'P': P}).get_sql()
+
+def _install_lambda_args(d):
+    from pony.utils import utils
+    utils.lambda_args_cache = d
+
+def _install_extractors(d):
+    from pony.orm import asttranslation
+    asttranslation.extractors_cache = d
+
+CACHES.update({
+    'extractors': dict(pool=['x.a for x in y', 'x for x in y if x.b > z', 'x.a for x in y', 'x.c for x in y'],
+                       install=_install_extractors, call=_extractors_call),
+    'lambda_args': dict(pool=[0, 1, 0, 2], install=_install_lambda_args, call=_lambda_args_call),
+    'constructed_sql': dict(pool=[0, 1, 2, 3], install=lambda d: setattr(_DBP[0], '_constructed_sql_cache', d), call=_constructed_sql_call),
+})
+
+
 def run_setonly(case):
     spec = CACHES[case['cache']]
     pool = spec['pool']
+    if _DBP: _DBP[0]._translator_cache = {}; _DBP[0]._constructed_sql_cache = {}       # only the cache under test is instrumented
     spec['install'](dict())
     alone = []
     for x in pool:
@@ -292,9 +342,10 @@ def run_cross(tmp):
 def main():
     payload = json.load(sys.stdin)
     tmp = tempfile.mkdtemp(prefix='c22-', dir=os.environ.get('VERIF_TMP', '/tmp'))
-    out = {'results': [], 'stuck': None, 'variant': translator_variant()}
+    out = {'results': [], 'stuck': None, 'variant': translator_variant(), 'key_shape': key_shape()}
     try:
         db, P = setup_db(os.path.join(tmp, 'c22.sqlite'))
+        _DBP[:] = [db, P]
         t0 = time.time()
         for k, case in enumerate(payload['cases']):
             try:
